@@ -1,4 +1,4 @@
-import BreezyVerif.Lemmas.C51
+import BreezyVerif.Lemmas.C51Plan
 /-!
 C51 — theorems.  All parent maps (any size, with ghosts), all onto / stop
 revisions, all topological orders `topo_sort` may return, any `generate_revid`.
@@ -12,139 +12,7 @@ open BreezyVerif.C33
 /-- `anc` computes ancestry: `a ∈ anc g k` iff `a` is reachable from `k` by parent steps -/
 theorem anc_spec (g : PMap) (k a : Key) : a ∈ anc g k ↔ Reach g [] [k] a := mem_anc g k a
 
-/-! ### the plan loop rewrites exactly `todo`, in order (no skipping) -/
-
-theorem planLoop_domain (g : PMap) (gen : Key → Key) (onto : Key) :
-    ∀ (todo : List Key) (plan plan' : Plan), planLoop g gen onto false plan todo = .ok plan' →
-      plan'.map (·.old) = plan.map (·.old) ++ todo ∧ ∀ e ∈ plan', e ∈ plan ∨ e.new = gen e.old := by
-  intro todo
-  induction todo with
-  | nil =>
-    intro plan plan' h
-    simp only [planLoop] at h
-    cases h
-    exact ⟨by simp, fun e he => Or.inl he⟩
-  | cons old todo ih =>
-    intro plan plan' h
-    simp only [planLoop] at h
-    split at h
-    · cases h
-    · rename_i plan1 hstep
-      obtain ⟨p0, rest, _, hp1⟩ := planStep_noskip hstep
-      obtain ⟨h1, h2⟩ := ih plan1 plan' h
-      subst hp1
-      refine ⟨by simp [h1], ?_⟩
-      intro e he
-      rcases h2 e he with h3 | h3
-      · rcases List.mem_append.mp h3 with h4 | h4
-        · exact Or.inl h4
-        · simp only [List.mem_singleton] at h4
-          subst h4
-          exact Or.inr rfl
-      · exact Or.inr h3
-
-theorem indexOf?_head (x : Key) (l : List Key) : indexOf? (x :: l) x = some 0 := by
-  simp [indexOf?, List.findIdx_cons]
-
-theorem findIdx_getLast : ∀ (l : List Key) (s : Key), l.Nodup → l.getLast? = some s →
-    l.findIdx (· == s) = l.length - 1 := by
-  intro l
-  induction l with
-  | nil => intro s _ h; simp at h
-  | cons x l ih =>
-    intro s hnd h
-    cases l with
-    | nil =>
-      simp at h
-      subst h
-      simp [List.findIdx_cons]
-    | cons y r =>
-      have hl : (y :: r).getLast? = some s := by simpa [List.getLast?_cons_cons] using h
-      have hnd' := (List.nodup_cons.mp hnd)
-      have hs : s ∈ y :: r := List.mem_of_getLast? hl
-      have hx : x ≠ s := fun e => hnd'.1 (e ▸ hs)
-      have hxs : (x == s) = false := by simpa using hx
-      rw [List.findIdx_cons, hxs, cond_false, ih s hnd'.2 hl]
-      simp only [List.length_cons]
-      omega
-
-theorem indexOf?_getLast (l : List Key) (s : Key) (hnd : l.Nodup) (h : l.getLast? = some s) :
-    indexOf? l s = some (l.length - 1) := by
-  unfold indexOf?
-  simp only [findIdx_getLast l s hnd h]
-  have : l ≠ [] := by intro e; subst e; simp at h
-  have : 0 < l.length := List.length_pos_iff.mpr this
-  have h2 : l.length - 1 < l.length := by omega
-  simp [h2]
-
-/-- what a successful `generate_simple_plan(…, start=None, …)` did: it ran the
-loop over a slice of `order` -/
-theorem simplePlan_ok {g : PMap} {gen : Key → Key} {todoS order : List Key} {stop : Option Key}
-    {onto : Key} {skip : Bool} {plan : Plan}
-    (h : simplePlan g gen todoS order none stop onto skip = .ok plan) :
-    ∃ stopK startK i j, (stop = some stopK ∨ (stop = none ∧ order.getLast? = some stopK)) ∧
-      order.head? = some startK ∧ indexOf? order startK = some i ∧ indexOf? order stopK = some j ∧
-      unrelated g stopK onto = false ∧
-      planLoop g gen onto skip [] ((order.drop i).take (j + 1 - i)) = .ok plan := by
-  unfold simplePlan at h
-  have hany : (none : Option Key).any (fun x => decide (x ∉ todoS)) = false := rfl
-  simp only [hany, Bool.false_eq_true, if_false] at h
-  split at h
-  · cases h
-  · cases hs : pickStop order stop with
-    | error e => simp [hs] at h
-    | ok stopK =>
-      simp only [hs] at h
-      have hstopK : stop = some stopK ∨ (stop = none ∧ order.getLast? = some stopK) := by
-        unfold pickStop at hs
-        cases stop with
-        | some s => simp at hs; exact Or.inl (by rw [hs])
-        | none =>
-          cases hl : order.getLast? with
-          | some s => simp [hl] at hs; exact Or.inr ⟨rfl, by rw [hs]⟩
-          | none => simp [hl] at hs
-      cases hst : pickStart g order onto stopK none with
-      | error e => simp [hst] at h
-      | ok startK =>
-        simp only [hst] at h
-        unfold pickStart at hst
-        by_cases hu : unrelated g stopK onto = true
-        · simp [hu] at hst
-        · simp only [hu, Bool.false_eq_true, if_false] at hst
-          cases hh : order.head? with
-          | none => simp [hh] at hst
-          | some s0 =>
-            simp only [hh, Except.ok.injEq] at hst
-            subst hst
-            cases hi : indexOf? order s0 with
-            | none => simp [hi] at h
-            | some i =>
-              cases hj : indexOf? order stopK with
-              | none => simp [hi, hj] at h
-              | some j =>
-                simp only [hi, hj] at h
-                exact ⟨stopK, s0, i, j, hstopK, rfl, hi, hj, by simpa using hu, h⟩
-
-/-- the whole `order` is the slice when `stop` is `None` or the last revision of `order` -/
-theorem simplePlan_loop {g : PMap} {gen : Key → Key} {todoS order : List Key} {stop : Option Key}
-    {onto : Key} {skip : Bool} {plan : Plan} (hnd : order.Nodup)
-    (hstop : ∀ s, stop = some s → order.getLast? = some s)
-    (h : simplePlan g gen todoS order none stop onto skip = .ok plan) :
-    planLoop g gen onto skip [] order = .ok plan := by
-  obtain ⟨stopK, startK, i, j, hs, hh, hi, hj, _, hl⟩ := simplePlan_ok h
-  have hlast : order.getLast? = some stopK := by
-    rcases hs with h1 | ⟨_, h2⟩
-    · exact hstop stopK h1
-    · exact h2
-  cases order with
-  | nil => simp at hh
-  | cons x l =>
-    simp only [List.head?_cons, Option.some.injEq] at hh
-    subst hh
-    rw [indexOf?_head] at hi
-    rw [indexOf?_getLast _ _ hnd hlast] at hj
-    cases hi; cases hj
-    simpa using hl
+/-! ### the plan rewrites exactly `order` (no skipping) -/
 
 /-- `plan_domain`: with `skip_full_merged=False`, `start=None` and `stop` either
 `None` or the last revision in topological order (the `rebase` command's case),
@@ -223,86 +91,6 @@ theorem plan_domain_todo (g : PMap) (gen : Key → Key) (todoS order : List Key)
   simp only [List.mem_filter, decide_eq_true_eq, mem_anc, present_iff, and_assoc]
 
 /-! ### every new parent is the new base, an earlier new id, or a ghost -/
-
-/-- walking the plan in order with the new ids seen so far -/
-def PlanClosed (g : PMap) (onto : Key) : List Key → Plan → Prop
-  | _, [] => True
-  | news, e :: rest =>
-    (∀ p ∈ e.parents, p = onto ∨ p ∈ news ∨ parentsOf g p = none) ∧
-      PlanClosed g onto (news ++ [e.new]) rest
-
-theorem planClosed_append (g : PMap) (onto : Key) : ∀ (plan : Plan) (news : List Key) (e : Entry),
-    PlanClosed g onto news plan →
-    (∀ p ∈ e.parents, p = onto ∨ p ∈ news ++ plan.map (·.new) ∨ parentsOf g p = none) →
-    PlanClosed g onto news (plan ++ [e]) := by
-  intro plan
-  induction plan with
-  | nil => intro news e _ h; simpa [PlanClosed] using h
-  | cons x plan ih =>
-    intro news e hc h
-    simp only [List.cons_append, PlanClosed] at hc ⊢
-    refine ⟨hc.1, ih _ e hc.2 ?_⟩
-    simpa [List.append_assoc] using h
-
-/-- no revision's parent appears at or after it (`topo_sort` output) -/
-def topoFrom (g : PMap) : List Key → Bool
-  | [] => true
-  | old :: rest => (parentsL g old).all (fun p => p != old && !(rest.contains p)) && topoFrom g rest
-
-theorem planLoop_closed (g : PMap) (gen : Key → Key) (tip onto : Key) :
-    ∀ (todo done : List Key) (plan plan' : Plan),
-      (∀ k, k ∈ done ++ todo ↔ (k ∈ todoSet g tip onto ∧ present g k = true)) →
-      topoFrom g todo = true → plan.map (·.old) = done →
-      PlanClosed g onto [] plan →
-      planLoop g gen onto false plan todo = .ok plan' → PlanClosed g onto [] plan' := by
-  intro todo
-  induction todo with
-  | nil =>
-    intro done plan plan' _ _ _ hc h
-    simp only [planLoop] at h
-    cases h
-    exact hc
-  | cons old todo ih =>
-    intro done plan plan' hmem htopo hdone hc h
-    simp only [planLoop] at h
-    split at h
-    · cases h
-    · rename_i plan1 hstep
-      obtain ⟨p0, rest, hps, hp1⟩ := planStep_noskip hstep
-      simp only [topoFrom, Bool.and_eq_true, List.all_eq_true, bne_iff_ne, Bool.not_eq_true',
-        List.contains_eq_mem, decide_eq_false_iff_not] at htopo
-      have hold : old ∈ todoSet g tip onto := ((hmem old).mp (by simp)).1
-      have holdA : old ∈ anc g tip := by
-        unfold todoSet at hold
-        exact (List.mem_filter.mp hold).1
-      apply ih (done ++ [old]) plan1 plan' (by simpa [List.append_assoc] using hmem) htopo.2
-        (by subst hp1; simp [hdone]) _ h
-      subst hp1
-      apply planClosed_append g onto plan [] _ hc
-      intro p hp
-      rcases newParents_src g onto plan p0 rest p hp with h1 | ⟨e, he, h1⟩ | ⟨h1, h2, h3⟩
-      · exact Or.inl h1
-      · exact Or.inr (Or.inl (by simp only [List.nil_append]; exact List.mem_map.mpr ⟨e, he, h1⟩))
-      · -- an old parent kept: it is not merged into onto and has no entry, so it is a ghost
-        right; right
-        have hpA : p ∈ anc g tip := anc_parent holdA hps h1
-        have hnm : p ∉ anc g onto := by
-          intro hm
-          unfold mergedInto at h2
-          simp [hm] at h2
-        cases hpp : parentsOf g p with
-        | none => rfl
-        | some pps =>
-          exfalso
-          have hin : p ∈ done ++ old :: todo := (hmem p).mpr
-            ⟨by unfold todoSet; simp [List.mem_filter, hpA, hnm], present_iff.mpr ⟨pps, hpp⟩⟩
-          have hpl : p ∈ parentsL g old := mem_parentsL.mpr ⟨_, hps, h1⟩
-          have := htopo.1 p hpl
-          rcases List.mem_append.mp hin with h4 | h4
-          · exact h3 (hdone ▸ h4)
-          · rcases List.mem_cons.mp h4 with h5 | h5
-            · exact this.1 h5
-            · exact this.2 h5
 
 /-- `plan_parents_closed_partial`: with `skip_full_merged=False`, `start=None`,
 `stop` = `None` or the tip, `order` a topological order of the present revisions
